@@ -27,6 +27,15 @@ Section C02.
     solve_t_M d o t s = (s, Raise IndexError).
   Proof. exact (offset_out_of_span_rejected num sub absf ltb isfin zero ev before after d o t s p). Qed.
 
+  (* a period without room for the instance's lags (p < lags) or leads (p + leads >= len(span)): IndexError, nothing
+     changes; p is the normalised position, so both spellings of t are covered (holds since fix: eb62990) *)
+  Theorem C02_infeasible_period_rejected d o t s p :
+    min_iter o <= max_iter o ->
+    py_pos (length (status s)) t = Some p ->
+    ((p < lags d)%nat \/ (length (status s) <= p + leads d)%nat) ->
+    solve_t_M d o t s = (s, Raise IndexError).
+  Proof. exact (infeasible_period_rejected num sub absf ltb isfin zero ev before after d o t s p). Qed.
+
   (* in-span offset: identical to the offset-free solve after copying the endogenous values of t+offset into t *)
   Theorem C02_offset_seeds d o t s p :
     py_pos (length (status s)) t = Some p -> feasible d (length (status s)) p = true ->
@@ -121,9 +130,11 @@ End C02.
 
 Print Assumptions C02_min_gt_max_rejected.
 Print Assumptions C02_offset_out_of_span_rejected.
+Print Assumptions C02_infeasible_period_rejected.
 Print Assumptions C02_offset_seeds.
 Print Assumptions C02_converges_at_least_k.
 Print Assumptions C02_fails_when_no_k.
 Print Assumptions C02_finite_spec.
 Print Assumptions C02_maxiter0.
 Print Assumptions ex_hypotheses_satisfiable.
+Print Assumptions ex_infeasible_rejected.
